@@ -43,6 +43,11 @@ func (tracker *TxTracker) Stop() {
 	tracker.stop.Store(true)
 }
 
+// Start lets Check send requests again after Stop, for example when the node reconnects.
+func (tracker *TxTracker) Start() {
+	tracker.stop.Store(false)
+}
+
 // Adds a txid to tracker to be monitored for expired requests
 func (tracker *TxTracker) Add(txid bitcoin.Hash32) {
 	tracker.mutex.Lock()
